@@ -143,6 +143,16 @@ def scenarios():
     fl = {"file.main": _f(rel_path="main.py"), "file.other": _f(rel_path="other.py"), "modules.pkg": _f(autoload=False, rel_path="modules/pkg/__init__.py"),
           "modules.pkg.sub": _f(src="new", autoload=False, rel_path="modules/pkg/sub.py")}
     S.append(("file inside a module package edited", ex, fl, None, ("file.main", "modules.pkg", "modules.pkg.sub"), ("file.main",)))
+    # importer names only a sub-module of a package (import pkg.sub as sub); that sub-module is edited
+    ex = {"file.main": _e(imports={"modules.pkg.sub"}), "modules.pkg.sub": _e(), "file.other": _e()}
+    fl = {"file.main": _f(rel_path="main.py"), "file.other": _f(rel_path="other.py"), "modules.pkg": _f(autoload=False, rel_path="modules/pkg/__init__.py"),
+          "modules.pkg.sub": _f(src="new", autoload=False, rel_path="modules/pkg/sub.py")}
+    S.append(("only a package sub-module imported (dotted), that file edited", ex, fl, None, ("file.main", "modules.pkg.sub"), ("file.main",)))
+    # ... reached through another module: main -> m1 -> pkg.sub ; pkg/sub.py edited
+    ex = {"file.main": _e(imports={"modules.m1"}), "modules.m1": _e(imports={"modules.pkg.sub"}), "modules.pkg.sub": _e(), "file.other": _e()}
+    fl = {"file.main": _f(rel_path="main.py"), "file.other": _f(rel_path="other.py"), "modules.m1": _f(autoload=False, rel_path="modules/m1.py"),
+          "modules.pkg.sub": _f(src="new", autoload=False, rel_path="modules/pkg/sub.py")}
+    S.append(("package sub-module imported through another module, that file edited", ex, fl, None, ("file.main", "modules.m1", "modules.pkg.sub"), ("file.main",)))
     # app package: sibling file edited -> only the app's __init__ re-executed
     ex = {"apps.a1": _e(app_config={"x": 1}, imports={"apps.a1.helper"}), "apps.a1.helper": _e(), "file.main": _e()}
     fl = {"apps.a1": _f(rel_path="apps/a1/__init__.py", app_config={"x": 1}), "apps.a1.helper": _f(src="new", autoload=False, rel_path="apps/a1/helper.py"), "file.main": _f(rel_path="main.py")}
@@ -158,7 +168,7 @@ def run(ctx):
     program = ctx.program
     f = program.func(LS)
     ctx.rule("R10.2", "contexts are stopped and deleted and shutdown triggers awaited before anything is loaded; the reload service starts the contexts afterwards", floor=10)
-    ctx.rule("R10.S", "load_scripts discards and (re)loads exactly the contexts the statement names, for every file-tree model of the catalogue", floor=12)
+    ctx.rule("R10.S", "load_scripts discards and (re)loads exactly the contexts the statement names, for every file-tree model of the catalogue", floor=14)
     for label, ex, fl, arg, exp_del, exp_load in scenarios():
         res = _model_run(program, ex, fl, arg)
         # a context that is re-loaded under its old name is discarded by load_file itself (stop + delete of the previous context)
@@ -186,6 +196,48 @@ def run(ctx):
     ok = any(isinstance(k, ast.keyword) and k.arg == "global_ctx_only" and norm(k.value) == "global_ctx_only" for n in body_walk(h) if isinstance(n, ast.Call) and call_name(n) in ("load_scripts", "start_global_contexts") for k in n.keywords)
     ctx.check(ok, "R10.2", "__init__.py::async_setup_entry.reload_scripts_handler", "the reload argument reaches load_scripts and start_global_contexts", msg="reload handler no longer forwards global_ctx to load_scripts/start_global_contexts",
               key="reload argument forwarded", node=h, rel="__init__.py")
+
+    # R10.A the reload comparison's reference value is not reachable from scripts ---------------------------------------------
+    ctx.rule("R10.A", "the app configuration remembered for the reload comparison is not aliased by the dictionary handed to the script", floor=2)
+    gi = "global_ctx.py::GlobalContext.__init__"
+    pol = FlowPolicy(program, may_raise_all=False, cancel=False)
+    pol.track_aliases = True
+    cfg_in = DictV([(Const("k"), Const(1))], "param.app_config")
+    out = run_flow(program, gi, pol, args={"self": ObjV("self", "GlobalContext"), "name": Const("apps.a"), "global_sym_table": Const(None), "manager": Sym(("mgr",)),
+                                            "rel_import_path": Const(None), "app_config": cfg_in, "source": Const("s"), "mtime": Const(1)},
+                   heap={"param.app_config": DictV([(Const("k"), Const(1))])})
+    n_exit = 0
+    bad = None
+    seen_cfg = False
+    for kind, c, desc in exits(out):
+        if kind != "return":
+            continue
+        n_exit += 1
+        kept = c.heap.get("self.app_config")
+        table = c.heap.get("self.global_sym_table")
+        shown = table.get(Const("pyscript.app_config")) if isinstance(table, DictV) else None
+        if isinstance(kept, DictV) and kept.items == cfg_in.items:
+            seen_cfg = True
+        else:
+            bad = f"the context remembers {kept!r} instead of the configuration it was loaded with"
+        if not isinstance(shown, DictV) or shown.items != cfg_in.items:
+            bad = f"the script sees pyscript.app_config = {shown!r}"
+        elif shown.origin is not None and (shown.origin == "self.app_config" or (isinstance(kept, DictV) and kept.origin == shown.origin)):
+            bad = "pyscript.app_config in the script's globals is the same dictionary object as the one compared on reload: a script that writes a default into its configuration is reloaded on every reload"
+    ctx.check(n_exit > 0 and seen_cfg and bad is None, "R10.A", gi, "script-visible app_config is a copy of the remembered one", msg=f"GlobalContext.__init__: {bad or 'no normal exit'}",
+              key="app_config alias", node=program.func(gi), rel="global_ctx.py")
+    ga = program.func("global_ctx.py::GlobalContext.get_app_config")
+    rets = [norm(n.value) for n in body_walk(ga) if isinstance(n, ast.Return) and n.value is not None]
+    ctx.check(rets == ["self.app_config"], "R10.A", "global_ctx.py::GlobalContext.get_app_config", "the comparison reads the remembered configuration",
+              msg=f"get_app_config returns {rets}; load_scripts compares it with the configuration on disk", key="get_app_config source", node=ga, rel="global_ctx.py")
+
+    # R10.I an unchanged module that is already loaded is not executed again by an import ------------------------------------------
+    ctx.rule("R10.I", "module_import reuses a module that is already loaded under any of its candidate context names", floor=10)
+    from .c11 import import_reuse_cases
+    mi = "global_ctx.py::GlobalContext.module_import"
+    for case, got in import_reuse_cases(program):
+        ctx.check(got == "ok", "R10.I", mi, f"reuse: {case}", msg=f"module_import: {case}: {got}: an unchanged module would be executed again (and its old context dropped) on reload",
+                  key=f"reuse {case}", node=program.func(mi), rel="global_ctx.py")
 
     ctx.rule("R10.D", "discovery: load paths cover top level, scripts/**, configured apps and modules; '#' files are skipped; apps need configuration", floor=4)
     lp = None
